@@ -281,6 +281,23 @@ pub fn render(t: &Ty) -> Option<String> {
     })
 }
 
+/// sample arguments for functions whose generic samples are outside their domain (the call
+/// would only ever produce an error value): (function, full argument list)
+const OVERRIDES: &[(&str, &[&str])] = &[
+    ("rectangular_distribution", &["0.5", "1.5"]),
+    ("triangular_distribution", &["0.5", "2.25"]),
+    ("triangular_distribution", &["0.5", "2.25", "1.5"]),
+    ("geometric_distribution", &["0.5"]),
+    ("uniform_distribution", &["1", "3"]),
+    ("acos", &["0.5"]),
+    ("asin", &["0.5"]),
+    ("atanh", &["0.5"]),
+    ("digits", &["3", "2"]),
+    ("json_deserialize", &["#\"[1, 2, {\"a\": 1.5, \"b\": [true, null, \"s\"]}]\"#"]),
+    ("code_point", &["\"a\""]),
+    ("to_int", &["\"12\""]),
+];
+
 pub const PRELUDE: &str = r#"
 fn v_d(v_n: int)->int{ if(v_n == 0, 0, 1 + v_d(v_n - 1)) }
 fn v_wk<T>(v_x: T)->T{ let v_z = v_d(1) + ("ab" * 2).len() + display(7); v_x }
@@ -313,6 +330,17 @@ pub fn calls() -> (Vec<DocCall>, usize, usize) {
         };
         for (vi, ps) in variants.iter().enumerate() {
             let args: Option<Vec<String>> = ps.iter().enumerate().map(|(i, p)| sample(&p.ty, i)).collect();
+            let args = args.map(|a| match OVERRIDES.iter().find(|(n, o)| *n == s.name && o.len() == a.len()) {
+                Some((_, o)) => o.iter().map(|x| x.to_string()).collect(),
+                None => a,
+            });
+            // the generic str sample is not a format specifier; a bare width is one for every type
+            let args = args.map(|mut a| {
+                if s.name == "format" && a.len() == 2 {
+                    a[1] = "\"8\"".to_string();
+                }
+                a
+            });
             match args {
                 None => unsynth += 1,
                 Some(args) => {
@@ -455,4 +483,46 @@ pub fn ill_typed_texts() -> Vec<(String, String)> {
         }
     }
     out
+}
+
+/// "one big value + one operation": the call with one argument replaced by a large value of its
+/// type (a few kB), so that the function's own allocations and pre-flights rise above the
+/// transient peak of instantiation and become reachable size-fault points
+pub fn big_variants(c: &DocCall) -> Vec<(String, String)> {
+    let mut out = vec![];
+    for (i, t) in c.arg_types.iter().enumerate() {
+        let big: Option<String> = match t {
+            Ty::Str if c.name == "json_deserialize" => Some("\"[\" + \"0,\" * 1500 + \"0]\"".into()),
+            Ty::Str if c.name == "to_int" => Some("\"1\" * 3000".into()),
+            Ty::Str if c.name == "format" && i == 1 => Some("\"3000\"".into()),
+            Ty::Str => Some("\"ab\" * 3000".into()),
+            // (no big ints: with a huge count or exponent many functions are legitimately slow - bounded, but minutes)
+            Ty::Named(n, a) if n == "Sequence" && a.len() == 1 => match &a[0] {
+                Ty::Int | Ty::Generic(_) => Some("range(600).to_array()".into()),
+                Ty::Float => Some("range(600).map((v_q: int)->{v_q.to_float()}).to_array()".into()),
+                Ty::Str => Some("range(600).map((v_q: int)->{v_q.to_str()}).to_array()".into()),
+                _ => None,
+            },
+            Ty::Named(n, a) if n == "Generator" && a.len() == 1 => match &a[0] {
+                Ty::Int | Ty::Generic(_) => Some("range(600).to_generator()".into()),
+                Ty::Float => Some("range(600).to_generator().map((v_q: int)->{v_q.to_float()})".into()),
+                _ => None,
+            },
+            Ty::Named(n, a) if n == "Set" && matches!(a.as_slice(), [Ty::Int] | [Ty::Generic(_)]) => Some("set<int>().update(range(300))".into()),
+            Ty::Named(n, a) if n == "Mapping" && matches!(a.first(), Some(Ty::Int) | Some(Ty::Generic(_))) && a.len() == 2 && matches!(a[1], Ty::Int | Ty::Generic(_)) => {
+                Some("mapping<int>().update(range(300).map((v_q: int)->{(v_q, v_q)}))".into())
+            }
+            Ty::Named(n, a) if n == "Stack" && matches!(a.as_slice(), [Ty::Int] | [Ty::Generic(_)]) => Some("range(300).reduce(cast<Stack<int>>(stack()), (v_s: Stack<int>, v_q: int)->{v_s.push(v_q)})".into()),
+            _ => None,
+        };
+        if let Some(b) = big {
+            out.push((format!("{} big-arg{i}", c.label), substituted(c, &[(i, &b)])));
+        }
+    }
+    out
+}
+
+pub fn forcing_program_with_ballast(call: &str, ret: &Ty) -> String {
+    let ballast = "b".repeat(1400);
+    format!("let v_ballast = \"{ballast}\";\n{}", forcing_program(call, ret))
 }
